@@ -24,7 +24,7 @@ Judge(e) ==
   IN IF good THEN [good |-> TRUE]
      ELSE [good |-> FALSE, sid |-> e.sid, p |-> e.p, inc |-> e.inc, wantok |-> want.ok, wantat |-> want.at,
            gotok |-> e.ok, gotat |-> e.at, gottok |-> e.tok, err |-> e.err,
-           ph |-> IF want.ok THEN "accept:" \o Run(sch, e.p).ph ELSE PhaseBefore(sch, e.p, want.at)]
+           ph |-> IF want.ok THEN "end:" \o Run(sch, e.p).ph ELSE PhaseBefore(sch, e.p, want.at)]
 TStep == /\ l <= Len(Trace) /\ l' = l + 1
          /\ LET j == Judge(Trace[l]) IN
             IF j.good THEN UNCHANGED nfail
